@@ -16,6 +16,31 @@ CLAIMED = {
             "reference minimiser derived by hand (verif/refs/prox_ref.py); float comparison at 1e-9 (values) / 1e-7 "
             "(HIER-PROX argmin) relative to the data scale; entries with |x|<1e-100 are not generated (squares underflow)",
             "DESIGN.md section 3, C05"),
+    "C01": ("property-based testing (Hypothesis): library score vs literal definitions of the distances (transport LP "
+            "solved with HiGHS for Wasserstein-1)",
+            "Generated prediction matrices (near-uniform to near one-hot) and affinities (every named kernel/metric with "
+            "drawn parameters, callables, precomputed PSD / indefinite / distance matrices) are scored by all 6 classes x "
+            "ovo, the 13 registry names and gemini=None, through both call forms; each score must equal the literal "
+            "OvA/OvO expectation of the named distance. Exploration: held on every generated case.",
+            "reference definitions in verif/refs/gemini_ref.py; tolerance 1e-8*max(S,|ref|), 1e-6*S for MMD "
+            "(cancellation under the square root); LP-based Wasserstein cases n<=8",
+            "DESIGN.md section 3, C01"),
+    "C02": ("property-based testing (Hypothesis): analytic directional derivative in logit space vs Richardson central "
+            "differences of the score, with a differentiability (kink) filter",
+            "For generated shapes, saturation levels and affinities the returned gradient is pushed through the softmax "
+            "Jacobian and compared along coordinate and random simplex directions with numerical derivatives of the score; "
+            "score with/without return_grad, gradient shape and exact zeros on clipped entries are asserted. Exploration.",
+            "accepted error 10|D_h-D_h/2|+1e-7*max(S,|score|,|deriv|); kinks skipped and counted; MMD differentiated "
+            "through a difference-first extended-precision evaluation of the same function and skipped where a squared "
+            "distance is within 1000 roundings of zero",
+            "DESIGN.md section 3, C02"),
+    "C13": ("property-based metamorphic testing (Hypothesis): permutation, empty-cluster and bound relations",
+            "Scores and gradients are compared between an input and its joint sample/cluster permutation and its "
+            "extension by an empty cluster; floors, ceilings, log K for balanced hard partitions and finiteness are "
+            "asserted on the closed simplex (one-hot rows, zero columns). Exploration.",
+            "gradients compared modulo per-row constants; TV/Wasserstein gradients only at generic soft points; "
+            "empty-cluster relation for predictions with entries >= 1e-4 (epsilon clipping artefact otherwise)",
+            "DESIGN.md section 3, C13"),
 }
 
 NOT_YET = {}
